@@ -25,7 +25,9 @@ EXPLANATION = (
     'R-C15.5 ProjectSignature.get_app_sig resolves a name by exact app id '
     'first and uses the legacy-label alias only as a fallback; '
     'R-C15.6 BaseEvolutionTask.execute_tasks reaches the loop over its tasks on every normal path (an empty list excepted) and every iteration calls task.execute(); PurgeAppTask.execute runs its SQL under no condition other than evolution_required; '
-    'R-C15.4 also: purging removes the app\'s own, emptied signature entry (guarded by is_empty); R-C15.7 a stored custom many-to-many db_table survives loading (shared with R-C06.10).')
+    'R-C15.4 also: purging removes the app\'s own, emptied signature entry (guarded by is_empty); R-C15.7 a stored custom many-to-many db_table survives loading (shared with R-C06.10).'
+    ' '
+    'R-C15.8 keyed probes of ProjectSignature._app_sigs occur only inside get_app_sig (the lookup that honours legacy labels).')
 NOT_DECIDED = (
     'Non-interference with other apps\' tables and rows for every project '
     'layout (prefix table names, shared m2m tables).')
@@ -464,7 +466,62 @@ def r7_stored_m2m_table_name_survives(ctx):
     r10_whitelist_names_not_class_attributes(ctx, rule_id='R-C15.7')
 
 
+def r8_app_lookup_through_accessor(ctx, rule_id='R-C15.8'):
+    """An app may be stored under its legacy label (signatures written
+    before the app had an AppConfig label, version-1 signatures).
+    ProjectSignature.get_app_sig() is the one lookup that honours that; a
+    keyed probe of the underlying table (`_app_sigs.get(id)`,
+    `_app_sigs[id]`, `id in _app_sigs`) anywhere else treats such an app as
+    absent - ProjectSignature.diff() then lists an installed app as deleted
+    and `evolve --purge` drops its tables."""
+    ctx.rule(rule_id)
+    p = ctx.program
+    n = 0
+    ACCESSORS = {'get_app_sig'}
+    for m in p.modules.values():
+        for f in m.all_funcs():
+            for x in walk_no_nested(f.node):
+                probe = None
+                if isinstance(x, ast.Call) and \
+                        isinstance(x.func, ast.Attribute) and \
+                        x.func.attr in ('get', 'pop', '__getitem__',
+                                        '__contains__') and \
+                        isinstance(x.func.value, ast.Attribute) and \
+                        x.func.value.attr == '_app_sigs':
+                    probe = x
+                if isinstance(x, ast.Subscript) and \
+                        isinstance(x.ctx, ast.Load) and \
+                        isinstance(x.value, ast.Attribute) and \
+                        x.value.attr == '_app_sigs':
+                    probe = x
+                if isinstance(x, ast.Compare) and any(
+                        isinstance(o, (ast.In, ast.NotIn)) for o in x.ops) \
+                        and any(isinstance(c, ast.Attribute) and
+                                c.attr == '_app_sigs'
+                                for c in x.comparators):
+                    probe = x
+                if probe is None:
+                    continue
+                n += 1
+                if f.name in ACCESSORS:
+                    ctx.ok(f, 'keyed lookup inside the accessor', probe)
+                else:
+                    ctx.finding(f, probe, '%s probes the app table directly '
+                                '(%s) instead of get_app_sig(): an app '
+                                'stored under its legacy label is not found '
+                                '- the diff reports an installed app as '
+                                'deleted and a purge drops its tables' % (
+                                    f.qualname,
+                                    ' '.join(unparse(probe).split())),
+                                key='raw-app-lookup')
+    ctx.counts['%s keyed lookups in the app-signature table' % rule_id] = n
+    if not n:
+        ctx.ok(('django_evolution.signature', 'ProjectSignature'),
+               'the app table is never probed by key outside iteration')
+
+
 def run(ctx):
+    r8_app_lookup_through_accessor(ctx)
     r7_stored_m2m_table_name_survives(ctx)
     r6_every_task_executed(ctx)
     r5_exact_lookup_first(ctx)
